@@ -82,7 +82,8 @@ ASSUMPTIONS = ["flattened `in` tests compare built-in values: == is total, symme
 FX = {"lhs_outer": os.environ.get("C19_FX_LHS", "1"),       # proposed_fixes/C19-flatten_lhs_evaluated_after_members
       "fix_and": os.environ.get("C19_FX_AND", "1"),         # proposed_fixes/C19-switch_and_of_eq_treated_as_or
       "chk_truth": os.environ.get("C19_FX_TRUTH", "1"),     # proposed_fixes/C19-cascade_truth_error_ignored
-      "tail_fix": os.environ.get("C19_FX_TAIL", "0")}       # proposed_fixes/C19-constfold_true_tail_result_untested
+      "tail_fix": os.environ.get("C19_FX_TAIL", "0"),       # proposed_fixes/C19-constfold_true_tail_result_untested
+      "emptydict_fix": os.environ.get("C19_FX_EDICT", "0")}  # proposed_fixes/C19-constfold_unhashable_in_empty_dict
 
 # ------------------------------------------------------------------------------------------------
 # tree dump worker (runs the real transforms; pipeline cut after SwitchTransform)
@@ -187,6 +188,8 @@ def cf_node(n):
         return (cf_node(n.operand1) + cf_node(n.operand2)) if n.operator == 'and' else [["?or"]]
     if isinstance(n, E.BoolNode):
         return [["bool", bool(n.value)]]
+    if isinstance(n, E.NotNode):
+        return [["not", cf_node(n.operand)]]
     if isinstance(n, E.PrimaryCmpNode):
         links = []; c = n
         while c is not None:
@@ -1982,9 +1985,9 @@ class B:
 # literal constants: (source text, value id); ids < 30 are POOL indices
 CF_LITS = [("1", 0), ("1.0", 1), ("True", 2), ("0", 3), ("0.0", 4), ("False", 5), ("'a'", 6), ("b'a'", 7), ("None", 8),
            ("(1, 2)", 10), ("2", 11), ("'ab'", 12), ("257", 14), ("-1", 15), ("1.5", 16), ("'b'", 17), ("(1, 2.0)", 18),
-           ("97", 19), ("()", 30), ("3", 31), ("[1, 2]", 33)]
-CF_EXTRA = {30: (), 31: 3, 33: [1, 2]}
-CF_CONTAINER = (10, 18, 30, 33)
+           ("97", 19), ("()", 30), ("3", 31), ("[1, 2]", 33), ("{}", 34), ("[]", 35)]
+CF_EXTRA = {30: (), 31: 3, 33: [1, 2], 34: {}, 35: []}
+CF_CONTAINER = (10, 18, 30, 33, 34, 35)
 CF_IDENT_OK = (8, 2, 5, 3, 0, 11, 15)           # None, True, False, 0, 1, 2, -1: identity is defined by the language / cache
 CF_CYOPS = ["<", "<=", "==", "!=", ">", ">=", "is", "is_not", "in", "not_in"]
 CF_SWAP = {0: 4, 1: 5, 2: 2, 3: 3, 4: 0, 5: 1}
@@ -2005,7 +2008,12 @@ def cf_ct(op, a, b):
     operator on the two values; an exception or a str/bytes mix = not a constant (None); `x in ()` is False"""
     if isinstance(a, (str, bytes)) and isinstance(b, (str, bytes)) and type(a) is not type(b):
         return None
-    if op in (8, 9) and isinstance(b, (tuple, list)) and len(b) == 0:
+    if op in (8, 9) and isinstance(b, (tuple, list, dict)) and len(b) == 0:
+        if isinstance(b, dict) and FX["emptydict_fix"] == "1":
+            try:
+                hash(a)
+            except TypeError:
+                return None
         return op == 9
     try:
         return bool(cf_pyop(op, a, b))
@@ -2069,6 +2077,7 @@ class FoldCase:
             self.col0 = len("    return ")
             return head + "    return %s\n" % e
         if self.ctx == "not":
+            self.col0 = len("    return not (")
             return head + "    return not (%s)\n" % e
         return head + "    if %s:\n        return True\n    return False\n" % e
 
@@ -2133,6 +2142,8 @@ class FoldCase:
             except ValueError:
                 res = "x901"
             cm.append("%d,%d,%d,%s" % (op, a, b, res))
+            if self.ctx == "not" and op >= 6:
+                cm.append("%d,%d,%d,%s" % (op ^ 1, a, b, {"v2": "v5", "v5": "v2"}.get(res, res)))
             if self.operands[i]["kind"] == "lit" and self.operands[i + 1]["kind"] == "lit":
                 st = cf_ct(op, x, y)
                 if st is not None:
@@ -2140,11 +2151,19 @@ class FoldCase:
         loud += [str(100 + i) for i, o in enumerate(self.operands) if o["kind"] == "loud"]
         j = lambda l: ";".join(dict.fromkeys(l)) or "-"
         links = ";".join("%d,%s" % (op, t) for op, t in zip(self.ops, toks[1:]))
+        if self.ctx == "not":
+            return "notfold %s %s %s %s %s %s %s" % ("true" if FX["tail_fix"] == "1" else "false", toks[0], links,
+                                                    j(ct), j(cm), j(tt), ",".join(dict.fromkeys(loud)) or "-")
         return "fold %s %s %s %s %s %s %s %s" % ("true" if FX["tail_fix"] == "1" else "false", drop_left, toks[0], links,
                                                  j(ct), j(cm), j(tt), ",".join(dict.fromkeys(loud)) or "-")
 
     def klass(self):
         """class of a property failure, from the input only"""
+        for i, op in enumerate(self.ops):
+            a, b = self.operands[i], self.operands[i + 1]
+            if (op in (8, 9) and FX["emptydict_fix"] != "1" and a["kind"] == "lit" and b["kind"] == "lit" and b["vid"] == 34
+                    and isinstance(cf_value(a["vid"]), (list, dict))):
+                return "constfold_unhashable_in_empty_dict"
         if self.flavour == "r":
             p = self.pattern
             if FX["tail_fix"] != "1" and p.endswith("T") and "D" in p and "F" not in p:
@@ -2208,7 +2227,7 @@ def cf_realize(rng, name, pattern, ctx="ret", loud_p=0.0, flavour="b"):
                         continue
                     if op in (6, 7) and any(x["kind"] == "lit" and x["vid"] not in CF_IDENT_OK for x in (prev, o)):
                         continue
-                    if op in (8, 9) and o["kind"] == "lit" and not isinstance(cf_value(o["vid"]), (str, bytes, tuple, list)):
+                    if op in (8, 9) and o["kind"] == "lit" and not isinstance(cf_value(o["vid"]), (str, bytes, tuple, list, dict)):
                         continue
                 found = (o, op); break
             if found is None:
@@ -2300,6 +2319,10 @@ CF_DIRECTED = [
     ("c is None is None", "b", [[8], [0]]), ("c is not None is not 1", "b", [[8], [0]]), ("None is None is c", "b", [[None, None, 8], [None, None, 3]]),
     ("c < None < 1", "b", [[0]]), ("c < 'a' < 'b' > 'ab'", "b", [[12], [0]]),
     ("c == 1 == 1.0 == True != c", "b", [[0, None, None, None, 3], [3, None, None, None, 0], [1, None, None, None, 2]]),
+    # not <chain that folds to one link / a literal>
+    ("c in (1, 2) == (1, 2)", "b", [[0], [14]], "not"), ("1 < 2 in c", "b", [[None, None, 10], [None, None, 18], [None, None, 0]], "not"),
+    ("1 < 2", "b", [[]], "not"), ("2 < 1", "b", [[]], "not"), ("c is None", "b", [[8], [0]], "not"), ("1 in {} < c", "b", [[None, None, 0]]),
+    ("1 not in {} != 3 in c", "b", [[None, None, None, 10], [None, None, None, 13]]), ("1 in [] < c", "b", [[None, None, 0]]), ("c < 3 != [1, 2] in {}", "b", [[0]]), ("[] not in {}", "b", [[]]), ("c in {}", "b", [[0]], "not"),
     # result objects (findings constfold_true_tail_result_untested / constfold_segment_result_tested_twice)
     ("w < 2 > 1", "r", [[[0, "t"]], [[0, "f"]], [[0, "x"]]]), ("1 < 2 < w < 3 < 257", "r", [[None, None, [2, "t"]], [None, None, [2, "f"]]]),
     ("w < w < 2 > 1 < w", "r", [[[0, "f"], [1, "t"], None, None, [4, "t"]], [[0, "t"], [1, "t"], None, None, [4, "t"]],
@@ -2337,6 +2360,18 @@ def gen_fold_cases(rng, quick, prefix):
         if c is not None:
             c.assigns = cf_assign(rng, c, k_assign)
             cases.append(c)
+    # _handle_NotNode: not (a OP b) for every operator (in / not in / is / is not are negated in place)
+    combos = [("call", "lit"), ("lit", "call"), ("call", "call"), ("name", "call")]
+    for op in range(10):
+        for ci, (lk, rk) in enumerate(combos):
+            if quick and (ci + op) % 2:
+                continue
+            lv = 8 if op in (6, 7) else 0
+            rv = 8 if op in (6, 7) else (rng.choice([10, 12, 30, 33]) if op in (8, 9) else rng.choice([0, 16, 11]))
+            mko = lambda k, v: {"kind": "lit", "vid": v} if k == "lit" else {"kind": k}
+            c = FoldCase("t_cf%s%d" % (prefix, len(cases)), [mko(lk, lv), mko(rk, rv)], [op], "not", "b")
+            c.assigns = cf_assign(rng, c, k_assign)
+            cases.append(c)
     for d in CF_DIRECTED:
         c = cf_parse(d[0], d[1], d[3] if len(d) > 3 else "ret", "t_cf%s%d" % (prefix, len(cases)))
         c.assigns = [list(a) + [None] * (len(c.operands) - len(a)) for a in d[2]]
@@ -2359,7 +2394,9 @@ def cf_struct_from_dump(case, dump):
         return -1
     out = []
     for n in dump:
-        if n[0] == "bool":
+        if n[0] == "not":
+            out.append("N(%s)" % cf_struct_from_dump(case, n[1]))
+        elif n[0] == "bool":
             out.append("B1" if n[1] else "B0")
         elif n[0] == "casc":
             out.append("C%d(%s)" % (tok(n[1]), ",".join("%d.%d" % (CF_CYOPS.index(op), tok(t)) for op, t in n[2])))
@@ -2379,9 +2416,8 @@ def cf_model_obs(trace, out, case):
                 ev.append("c%d/%d/%d" % (CF_SWAP[op], b - 100, -1))
         else:
             ev.append(e)
-    if case.ctx != "ret" and out[0] == "V":
-        t = out == "V2" if out in ("V2", "V5") else None
-        out = "V?" if t is None else ("V2" if t == (case.ctx == "if") else "V5")
+    if case.ctx == "if" and out[0] == "V" and out not in ("V2", "V5"):
+        out = "V?"
     return "%s | %s" % (",".join(ev) or "-", out)
 
 
@@ -2429,7 +2465,7 @@ def check_fold(ctx, model, cases, dumps, cy, py):
                 ctx.corr_break("constfold:model", inp, mres[k - 1], "five fields")
                 continue
             mstruct, mrun, mref = m[0], cf_model_obs(m[1], m[2], c), cf_model_obs(m[3], m[4], c)
-            if ai == 0 and c.ctx == "ret":
+            if ai == 0 and c.ctx in ("ret", "not"):
                 nstruct += 1
                 d = dumps.get(c.name)
                 ds = cf_struct_from_dump(c, d) if d is not None else "no dump"
